@@ -385,4 +385,36 @@ example : OW.Sim.LockCheck.lockCheck
      { name := "helper", exported := false, lock := .none, irregular := false, lib := [("Dataset.Write", true)], calls := [] }] = true := by
   decide
 
+/-- lock helpers taking a closure (`func withLock(body func()) { lock(); defer unlock(); body() }`, any name): the
+extractor makes the function literal handed to the helper a node of its own, called BY THE HELPER (whose parameter is
+call-only), so it inherits the helper's lock and nothing from the function it is written in. The thin exported wrapper
+`Load`, the helper, the literal and the unexported body `load` pass … -/
+example : OW.Sim.LockCheck.lockCheck
+    [{ name := "Load", exported := true, lock := .none, irregular := false, lib := [], calls := [3] },
+     { name := "Load.func1", exported := false, lock := .none, irregular := false, lib := [], calls := [2] },
+     { name := "load", exported := false, lock := .none, irregular := false, lib := [("hdf5.OpenFile", false)], calls := [] },
+     { name := "withReadLock", exported := false, lock := .shared, irregular := false, lib := [], calls := [1] }] = true := by
+  decide
+/-- … a shared-lock helper around a mutating body does not … -/
+example : OW.Sim.LockCheck.lockCheck
+    [{ name := "Write", exported := true, lock := .none, irregular := false, lib := [], calls := [3] },
+     { name := "Write.func1", exported := false, lock := .none, irregular := false, lib := [], calls := [2] },
+     { name := "write", exported := false, lock := .none, irregular := false, lib := [("Dataset.Write", true)], calls := [] },
+     { name := "withReadLock", exported := false, lock := .shared, irregular := false, lib := [], calls := [1] }] = false := by
+  decide
+/-- … nor does a literal that is stored and called later (the extractor marks it an entry point: no lock guaranteed),
+nor a helper that releases the lock before it calls the body (`irregular`) -/
+example : OW.Sim.LockCheck.lockCheck
+    [{ name := "Load", exported := true, lock := .none, irregular := false, lib := [], calls := [3] },
+     { name := "Load.func1", exported := true, lock := .none, irregular := false, lib := [], calls := [2] },
+     { name := "load", exported := false, lock := .none, irregular := false, lib := [("hdf5.OpenFile", false)], calls := [] },
+     { name := "withReadLock", exported := false, lock := .shared, irregular := false, lib := [], calls := [] }] = false := by
+  decide
+example : OW.Sim.LockCheck.lockCheck
+    [{ name := "Load", exported := true, lock := .none, irregular := false, lib := [], calls := [3] },
+     { name := "Load.func1", exported := false, lock := .none, irregular := false, lib := [], calls := [2] },
+     { name := "load", exported := false, lock := .none, irregular := false, lib := [("hdf5.OpenFile", false)], calls := [] },
+     { name := "withReadLock", exported := false, lock := .shared, irregular := true, lib := [], calls := [1] }] = false := by
+  decide
+
 end OW.Props.C08
